@@ -962,6 +962,15 @@ class Crystal(object):
                 if u != 0:
                     super[1, 2] = -int(u)
                     modified = True
+                else:
+                    # pairwise reduced; the third vector can still be shortened by a combination of the other two
+                    # (e.g. c + a1 + a2 in a hexagonal cell), which would hide symmetry operations from gengroup()
+                    for x0, x1 in ((1, 1), (1, -1), (-1, 1), (-1, -1)):
+                        v = self.lattice[:, 2] + x0 * self.lattice[:, 0] + x1 * self.lattice[:, 1]
+                        if np.dot(v, v) < asq[2, 2] * (1 - self.threshold) - self.threshold:
+                            super[0, 2], super[1, 2] = x0, x1
+                            modified = True
+                            break
 
         if not modified:
             return
